@@ -353,4 +353,43 @@ theorem phase_frame_partial (len : Nat) (loops : List (Rat × Nat × Bool × Lis
 example : ([(1 / 10, 1, false, [0, 0, 3 / 4]), (1 / 2, 2, false, [0, 0, 0])] : List (Rat × Nat × Bool × List Rat))[0]?
     = some (1 / 10, 1, false, [0, 0, 3 / 4]) := by decide +kernel
 
+/-! ## realistic loss, helper functions, parameter rules -/
+
+/-- **add_loss_sound.**  For every circuit: when `Borealis.add_loss` succeeds, removing the loss channels again
+(`program_utils.remove_loss`, as `validate_gate_parameters` does) gives back exactly the circuit, and it inserted exactly one
+loss channel per `MeasureFock`, `Sgate` and `BSgate`. -/
+theorem add_loss_sound (g : Rat) (e : List Rat) (c : List (String × List Nat)) (loop : Nat) (out : List LCmd)
+    (h : addLoss g e loop c = some out) :
+    removeLoss out = c ∧
+    lossCount out = (c.filter fun x => x.1 = "MeasureFock" ∨ x.1 = "Sgate" ∨ x.1 = "BSgate").length :=
+  ⟨removeLoss_addLoss g e c loop out h, lossCount_addLoss g e c loop out h⟩
+
+example : addLoss (1 / 2) [9 / 10, 4 / 5] 0 [("Sgate", [1]), ("BSgate", [0, 1]), ("BSgate", [2, 0]), ("MeasureFock", [0])]
+    = some [.gate "Sgate" [1], .loss (.num (1 / 2)) [1], .gate "BSgate" [0, 1], .loss (.num (9 / 10)) [1],
+            .gate "BSgate" [2, 0], .loss (.num (4 / 5)) [0], .loss .param [0], .gate "MeasureFock" [0]] := by decide +kernel
+
+/-- **phases_compatible.**  `tdm.utils.make_phases_compatible` changes a phase by a multiple of π only, and afterwards the
+compiler's compensation needs no π shift: the 2π-wrapped compensated value lies in `[−π/2, π/2]`, hence the compiled phase
+equals requested + offsets modulo 2π — for every phase, correction and previous correction. -/
+theorem phases_compatible (phi corr prev : Rat) :
+    (∃ m : Int, makeCompatible phi corr prev = phi + (m : Rat)) ∧
+    (-1 / 2 ≤ wrapPi (makeCompatible phi corr prev + corr - prev) ∧
+      wrapPi (makeCompatible phi corr prev + corr - prev) ≤ 1 / 2) ∧
+    ∃ m : Int, compensate (makeCompatible phi corr prev) corr prev
+      = makeCompatible phi corr prev + corr - prev + 2 * (m : Rat) := by
+  obtain ⟨a, b, c⟩ := makeCompatible_spec phi corr prev
+  exact ⟨a, ⟨b, c⟩, (phase_compensation _ corr prev).2.2 b c⟩
+
+example : makeCompatible (3 / 4) (1 / 2) 0 = 7 / 4 ∧ compensate (7 / 4) (1 / 2) 0 = 1 / 4 := by decide +kernel
+
+/-- **hard_coded_parameters.**  `Compiler.compile` accepts the parameters of a matched gate exactly when every pair of layout /
+program arguments is equal, or the layout's is a bare symbol (template parameter), or the program's is symbolic. -/
+theorem hard_coded_parameters (l p : List GArg) :
+    hardCodedClash l p = false ↔ ∀ xy ∈ l.zip p, xy.1 = xy.2 ∨ xy.1.isSymbol = true ∨ xy.2.isExpr = true :=
+  hardCodedClash_false_iff l p
+
+example : hardCodedClash [.sym "bs", .num 0] [.num (1 / 2), .num 0] = false ∧
+    hardCodedClash [.num (5643 / 10000), .num 0] [.num 2, .num 0] = true ∧
+    fixedValuesMatch [.sym "r", .num 0] [.num 1, .num (1 / 4)] = false := by decide +kernel
+
 end SFV.C12
